@@ -49,6 +49,24 @@ fn main() {
             let quiet = args.iter().any(|a| a == "--quiet");
             std::process::exit(check::replay_file(&defs, path, &verif_dir, quiet));
         }
+        Some("query") => {
+            // debugging aid: execute one operation against a harness schema, everything ready at once
+            let dynamic = args.get(1).map(|s| s == "dynamic").unwrap_or(false);
+            let q = args.get(2).cloned().unwrap_or_default();
+            core::sim::reset(core::tape::Tape::replay(vec![]), false);
+            scen::world::reset_world();
+            let flavour = if dynamic { scen::exec::Flavour::Dynamic } else { scen::exec::Flavour::Static };
+            if q.trim_start().starts_with("subscription") {
+                let events: Vec<scen::exec::SubEvent> = (0..3).flat_map(|ch| vec![scen::exec::SubEvent { at: 10 + ch as u64, ch, item: Some(scen::world::SubItem::Node(100 + ch)) }, scen::exec::SubEvent { at: 50, ch, item: None }]).collect();
+                let out = scen::exec::run_stream("query", flavour, 0, &q, None, 3, &events, 0);
+                for r in out.responses {
+                    println!("{r}");
+                }
+            } else {
+                let out = scen::exec::run_request("query", flavour, 0, &q, None);
+                println!("{}", out.resp.map(|r| r.to_string()).unwrap_or_else(|| "<did not complete>".into()));
+            }
+        }
         Some("range") => {
             // run the indices [start, end) of the search sequentially in this process and exit 0; used
             // by `locate` to find a run that kills the process (stack overflow, abort)
